@@ -225,6 +225,8 @@ class SingleInterval(Location):
         """
         if strict_parent_compare:
             ObjectValidation.require_parents_equal_except_location(self.parent, other.parent)
+        if other.is_empty:
+            return False
         if self.parent_id != other.parent_id:
             return False
         if self.parent or other.parent:
